@@ -298,6 +298,7 @@ struct RunResult {
     data_ok: Option<(bool, bool)>,                 // (offerer->answerer, answerer->offerer)
     data_ms: u64,
     dcep_label_ok: Option<bool>,
+    ans_dc_ok: Option<(bool, bool, bool)>,   // answerer-created in-band channel: (announced with same id, off->ans, ans->off)
     diag: Option<String>,
     rtp_ok: BTreeMap<String, (bool, bool)>,        // kind -> (off->ans, ans->off)
     off: SideObs,
@@ -319,17 +320,19 @@ fn params_for(kind: MediaKind) -> RtpCodecParameters {
     }
 }
 
-fn add_media(pc: &PeerConnection, p: &Point) -> Result<Vec<MediaEnd>, String> {
+fn add_media(pc: &PeerConnection, p: &Point, reversed: bool) -> Result<Vec<MediaEnd>, String> {
     let mut v = Vec::new();
     let mut kinds = Vec::new();
     if p.has_audio() { kinds.push(MediaKind::Audio); }
     if p.has_video() { kinds.push(MediaKind::Video); }
+    if reversed { kinds.reverse(); }
     for kind in kinds {
         let fk = match kind { MediaKind::Audio => rustrtc::media::frame::MediaKind::Audio, _ => rustrtc::media::frame::MediaKind::Video };
         let (source, track, _fb) = sample_track(fk, 64);
         pc.add_track(track, params_for(kind)).map_err(|e| format!("add_track: {e}"))?;
         v.push(MediaEnd { kind, source: Arc::new(source) });
     }
+    if reversed { v.reverse(); }   // callers pair the two ends' media by index: keep audio first
     Ok(v)
 }
 
@@ -425,7 +428,21 @@ async fn gather(pc: &PeerConnection, direct: bool, d: Duration) -> bool {
 }
 
 #[derive(Clone)]
-struct Timeouts { gather: Duration, connect: Duration, deliver: Duration, deliver_data: Duration, answer_delay: Duration }
+struct Timeouts { gather: Duration, connect: Duration, deliver: Duration, deliver_data: Duration, answer_delay: Duration, scn: Scn }
+
+/// Scenario variants of a run that are not lattice options (the model's prediction does not depend on them):
+/// what the application did around the offer/answer exchange.
+#[derive(Clone, Copy, Debug, Default, PartialEq, Eq, PartialOrd, Ord)]
+struct Scn {
+    /// the eventual ANSWERER called create_offer() once and discarded the result (pre-gathering idiom) before it
+    /// received the remote offer
+    warmup_offer_on_answerer: bool,
+    /// an additional in-band (DCEP) data channel created by the ANSWERER: 0 none, 1 before set_remote_description(offer)
+    /// (DTLS role still unknown), 2 after it (role known)
+    ans_dc: u8,
+    /// the answerer adds its tracks in the reverse order of the offer's m-lines (video before audio)
+    ans_tracks_reversed: bool,
+}
 
 async fn run_point(p: Point, tmo: &Timeouts) -> RunResult {
     let mut r = RunResult::default();
@@ -442,7 +459,9 @@ async fn run_point(p: Point, tmo: &Timeouts) -> RunResult {
     let mut dcs = None;
     let mut dcep_off = None;
     if p.has_data() && !p.dcep {
-        let mk = |pc: &PeerConnection| pc.create_data_channel("c10", Some(DataChannelConfig { negotiated: Some(0), ..Default::default() }));
+        // (id 2 when the answerer also opens an in-band channel, which takes stream 0 or 1)
+        let nid = if tmo.scn.ans_dc != 0 { 2 } else { 0 };
+        let mk = |pc: &PeerConnection| pc.create_data_channel("c10", Some(DataChannelConfig { negotiated: Some(nid), ..Default::default() }));
         match (mk(&off), mk(&ans)) {
             (Ok(a), Ok(b)) => dcs = Some((a, b)),
             (a, b) => bail!("create_data_channel", format!("{:?} / {:?}", a.err().map(|e| e.to_string()), b.err().map(|e| e.to_string()))),
@@ -455,8 +474,8 @@ async fn run_point(p: Point, tmo: &Timeouts) -> RunResult {
             Err(e) => bail!("create_data_channel(dcep)", e.to_string()),
         }
     }
-    let off_media = match add_media(&off, &p) { Ok(v) => v, Err(e) => bail!("add_track(offerer)", e) };
-    let ans_media = match add_media(&ans, &p) { Ok(v) => v, Err(e) => bail!("add_track(answerer)", e) };
+    let off_media = match add_media(&off, &p, false) { Ok(v) => v, Err(e) => bail!("add_track(offerer)", e) };
+    let ans_media = match add_media(&ans, &p, tmo.scn.ans_tracks_reversed) { Ok(v) => v, Err(e) => bail!("add_track(answerer)", e) };
 
     mark!("endpoints built");
     // complete, non-trickle offer/answer through SDP text
@@ -467,7 +486,19 @@ async fn run_point(p: Point, tmo: &Timeouts) -> RunResult {
     describe(&offer, &mut r.off);
     if let Err(e) = off.set_local_description(offer.clone()) { bail!("set_local_description(offer)", e.to_string()); }
     let offer_rx = match SessionDescription::parse(SdpType::Offer, &r.offer_sdp) { Ok(d) => d, Err(e) => bail!("parse(offer)", e.to_string()) };
+    let mut ans_dc = None;
+    if tmo.scn.ans_dc == 1 {
+        match ans.create_data_channel("c10-ans", None) { Ok(d) => ans_dc = Some(d), Err(e) => bail!("create_data_channel(answerer, before offer)", e.to_string()) }
+    }
+    if tmo.scn.warmup_offer_on_answerer {
+        // pre-gathering idiom: the result is discarded, the endpoint later turns out to be the answerer
+        if let Err(e) = ans.create_offer().await { bail!("create_offer(warm-up on the answerer)", e.to_string()); }
+        if !gather(&ans, direct, tmo.gather).await { bail!("gather(answerer warm-up)", "ICE gathering did not complete".into()); }
+    }
     if let Err(e) = ans.set_remote_description(offer_rx).await { bail!("set_remote_description(offer)", e.to_string()); }
+    if tmo.scn.ans_dc == 2 {
+        match ans.create_data_channel("c10-ans", None) { Ok(d) => ans_dc = Some(d), Err(e) => bail!("create_data_channel(answerer, after offer)", e.to_string()) }
+    }
     // a callee may take its time to answer (ringing); the transports must not depend on answering at once
     if !tmo.answer_delay.is_zero() { tokio::time::sleep(tmo.answer_delay).await; }
     if let Err(e) = ans.create_answer().await { bail!("create_answer(1)", e.to_string()); }
@@ -532,6 +563,33 @@ async fn run_point(p: Point, tmo: &Timeouts) -> RunResult {
             r.data_ms = t1.elapsed().as_millis() as u64;
             if !(a && b) {
                 r.diag = Some(format!("offerer sctp: {:?}; answerer sctp: {:?}", off.sctp_diagnostic_info(), ans.sctp_diagnostic_info()));
+            }
+        }
+        if let Some(dc_a) = &ans_dc {
+            // the offerer must learn the answerer's in-band channel (same label, same stream id) and a message must
+            // arrive each way on it
+            let t1 = Instant::now();
+            let mut got = None;
+            while t1.elapsed() < tmo.deliver_data && got.is_none() {
+                match tokio::time::timeout(Duration::from_millis(500), off.recv()).await {
+                    Ok(Some(rustrtc::PeerConnectionEvent::DataChannel(dc))) => { if dc.label == "c10-ans" { got = Some(dc); } }
+                    Ok(Some(_)) => {}
+                    Ok(None) => break,
+                    Err(_) => {}
+                }
+            }
+            match got {
+                Some(dc_o) => {
+                    let same_id = dc_o.id == dc_a.id;
+                    let a = dc_one_way(&ans, dc_a.id, &dc_o, b"C10 answerer-created channel answerer->offerer", tmo.deliver_data).await;
+                    let b = dc_one_way(&off, dc_o.id, dc_a, b"C10 answerer-created channel offerer->answerer", tmo.deliver_data).await;
+                    r.ans_dc_ok = Some((same_id, b, a));
+                }
+                None => {
+                    r.ans_dc_ok = Some((false, false, false));
+                    r.diag = Some(format!("answerer-created in-band channel (stream {}) never announced on the offerer; offerer sctp: {:?}; answerer sctp: {:?}",
+                                          dc_a.id, off.sctp_diagnostic_info(), ans.sctp_diagnostic_info()));
+                }
             }
         }
         for (mo, ma) in off_media.iter().zip(ans_media.iter()) {
@@ -654,6 +712,13 @@ fn oracle(p: &Point, r: &RunResult) -> (Vec<String>, Vec<String>) {
             if !a { runtime.push("data-channel message offerer->answerer not delivered intact".into()); }
             if !b { runtime.push("data-channel message answerer->offerer not delivered intact".into()); }
         }
+        if let Some((same, a, b)) = r.ans_dc_ok {
+            if !same { runtime.push("in-band data channel created by the answerer was not announced on the offerer (same label and stream id)".into()); }
+            else {
+                if !a { runtime.push("message offerer->answerer on the answerer-created channel not delivered intact".into()); }
+                if !b { runtime.push("message answerer->offerer on the answerer-created channel not delivered intact".into()); }
+            }
+        }
         for (k, (a, b)) in &r.rtp_ok {
             if !a { runtime.push(format!("{k} RTP offerer->answerer not delivered intact")); }
             if !b { runtime.push(format!("{k} RTP answerer->offerer not delivered intact")); }
@@ -745,9 +810,36 @@ fn main() {
     // C10-F3 witness (fixed): the plain default data-channel pair, several times (it lost SCTP on the offerer in
     // about 1 of 15 runs); distinct answer delays keep the cases distinct
     for k in 1..=6u64 { corpus.push((base, k)); }
-    struct Job { p: Point, kind: &'static str, delay_ms: u64 }
+    struct Job { p: Point, kind: &'static str, delay_ms: u64, scn: Scn }
     // kind "repeat": no retry (a race that hits half of the calls must not be retried away)
-    let mut jobs_v: Vec<Job> = corpus.iter().filter(|(p, _)| p.valid()).map(|(p, d)| Job { p: *p, kind: "corpus", delay_ms: *d }).collect();
+    let mut jobs_v: Vec<Job> = corpus.iter().filter(|(p, _)| p.valid()).map(|(p, d)| Job { p: *p, kind: "corpus", delay_ms: *d, scn: Scn::default() }).collect();
+    // scenario variants on fixed points (second-round seeded changes C10-4/5/6): warm-up offer on the answerer over default
+    // UDP, ICE-TCP-only, ICE-lite (Rtp) and Rtp/Srtp; in-band channel created by the ANSWERER before / after it applied
+    // the offer; answerer adding video before audio on the non-BUNDLE Rtp / Srtp audio+video points (and others)
+    let warm = Scn { warmup_offer_on_answerer: true, ..Scn::default() };
+    let rev = Scn { ans_tracks_reversed: true, ..Scn::default() };
+    let legacy_av = Point { mix: 3, compat: 1, compat_p: 1, ..base };
+    for (p, scn) in [
+        (base, warm), (Point { mix: 6, ..base }, warm),
+        (Point { mix: 0, tcp: 1, tcp_only: true, ..base }, warm), (Point { mix: 6, tcp: 1, tcp_only: true, ..base }, warm),
+        (Point { mode: 2, mix: 3, ice_lite: true, s_offers: false, ..base }, warm), (Point { mode: 2, mix: 1, ..base }, warm),
+        (Point { mode: 1, mix: 3, ..base }, warm), (Point { mode: 2, ..legacy_av }, warm),
+        (base, Scn { ans_dc: 1, ..Scn::default() }), (base, Scn { ans_dc: 2, ..Scn::default() }),
+        (Point { mix: 6, ..base }, Scn { ans_dc: 1, warmup_offer_on_answerer: true, ..Scn::default() }),
+        (Point { mix: 4, udp_mux: true, ..base }, Scn { ans_dc: 1, ..Scn::default() }),
+        (Point { mode: 2, ..legacy_av }, rev), (Point { mode: 2, mux: 1, mux_p: 1, ..legacy_av }, rev),
+        (Point { mode: 2, compat: 1, compat_p: 0, mix: 3, ..base }, rev),
+        (Point { mode: 1, mix: 3, ..base }, rev), (Point { mode: 2, mix: 3, ..base }, rev), (Point { mix: 6, ..base }, rev),
+        (Point { mix: 3, compat: 1, compat_p: 1, ..base }, rev),
+    ] {
+        if p.valid() { jobs_v.push(Job { p, kind: "corpus", delay_ms: 0, scn }); }
+    }
+    // generated points get a seeded variant where it applies
+    let pick_scn = |p: &Point, rng: &mut Rng| Scn {
+        warmup_offer_on_answerer: rng.chance(1, 4),
+        ans_dc: if p.has_data() && !p.dcep && rng.chance(1, 2) { 1 + rng.below(2) as u8 } else { 0 },
+        ans_tracks_reversed: p.has_audio() && p.has_video() && rng.chance(1, 2),
+    };
     // repeated SDES calls (C10-F1 / seeded C10-2 family: the state task of the direct transport racing with
     // set_remote_description / set_local_description): SRTP mode has no ICE/DTLS, a call costs ~30 ms; each runs on a
     // 4-worker runtime; oracle as for every point (both Connected, never Failed, keys mirrored, RTP each way)
@@ -755,17 +847,18 @@ fn main() {
     for k in 0..n_repeat {
         let mix = [1usize, 2, 3][k % 3];
         jobs_v.push(Job { p: Point { mode: 1, mix, mux: k % 2, mux_p: (k / 2) % 2, s_offers: true, ..base }, kind: "repeat",
-                          delay_ms: if k % 4 == 3 { 20 } else { 0 } });
+                          delay_ms: if k % 4 == 3 { 20 } else { 0 }, scn: Scn::default() });
     }
     let cover = if let Some(n) = std::env::var("C10_SAMPLE").ok().and_then(|s| s.parse::<usize>().ok()) {
         (0..n).map(|_| lat[rng.below(lat.len() as u64) as usize]).collect()   // debugging aid: n random lattice points
     } else if thorough { lat.clone() } else { pairwise(&lat, &mut rng) };
     let n_cover = cover.len();
-    let mut seen: BTreeSet<Point> = jobs_v.iter().filter(|j| j.delay_ms == 0).map(|j| j.p).collect();
+    let mut seen: BTreeSet<Point> = jobs_v.iter().filter(|j| j.delay_ms == 0 && j.scn == Scn::default()).map(|j| j.p).collect();
     for p in cover {
         // every third generated point is run with a callee that answers after 50..250 ms
         let delay_ms = if rng.chance(1, 3) { 50 + rng.below(201) } else { 0 };
-        if seen.insert(p) { jobs_v.push(Job { p, kind: if thorough { "exhaustive" } else { "pairwise" }, delay_ms }); }
+        let scn = pick_scn(&p, &mut rng);
+        if seen.insert(p) { jobs_v.push(Job { p, kind: if thorough { "exhaustive" } else { "pairwise" }, delay_ms, scn }); }
     }
     // quick: the covering array only guarantees pairs; add seeded random lattice points for higher-order
     // interactions (a point costs ~0.15 s)
@@ -776,17 +869,18 @@ fn main() {
         let stratum = &by_mode[[0, 1, 0, 2][k % 4]];
         let p = stratum[rng.below(stratum.len() as u64) as usize];
         let delay_ms = if rng.chance(1, 3) { 50 + rng.below(201) } else { 0 };
-        if seen.insert(p) { jobs_v.push(Job { p, kind: "random", delay_ms }); }
+        let scn = pick_scn(&p, &mut rng);
+        if seen.insert(p) { jobs_v.push(Job { p, kind: "random", delay_ms, scn }); }
     }
     // quick: fail fast (a point that cannot connect must not cost minutes); thorough: generous
     let base_tmo = if thorough {
-        Timeouts { gather: Duration::from_secs(10), connect: Duration::from_secs(25), deliver: Duration::from_secs(4), deliver_data: Duration::from_secs(15), answer_delay: Duration::ZERO }
+        Timeouts { gather: Duration::from_secs(10), connect: Duration::from_secs(25), deliver: Duration::from_secs(4), deliver_data: Duration::from_secs(15), answer_delay: Duration::ZERO, scn: Scn::default() }
     } else {
-        Timeouts { gather: Duration::from_secs(6), connect: Duration::from_secs(10), deliver: Duration::from_secs(3), deliver_data: Duration::from_secs(12), answer_delay: Duration::ZERO }
+        Timeouts { gather: Duration::from_secs(6), connect: Duration::from_secs(10), deliver: Duration::from_secs(3), deliver_data: Duration::from_secs(12), answer_delay: Duration::ZERO, scn: Scn::default() }
     };
     // the single retry of a failed point uses shorter timeouts still
     let retry_tmo = Timeouts { gather: Duration::from_secs(6), connect: Duration::from_secs(if thorough { 15 } else { 8 }),
-                               deliver: Duration::from_secs(3), deliver_data: Duration::from_secs(8), answer_delay: Duration::ZERO };
+                               deliver: Duration::from_secs(3), deliver_data: Duration::from_secs(8), answer_delay: Duration::ZERO, scn: Scn::default() };
     // budget: once this many points have failed (after their retry) or this much time has passed, the remaining RANDOM
     // points are skipped (corpus, repeat scenario and covering array always run); the evidence says so
     let max_failed: usize = if thorough { usize::MAX } else { 10 };
@@ -799,7 +893,9 @@ fn main() {
             let p = Point { mode: f[0], mix: f[1], bundle: f[2], mux: f[3], ice_lite: f[4] == 1, tcp: f[5], udp_mux: f[6] == 1,
                             latching: f[7] == 1, compat: f[8], s_offers: f[9] == 1, mux_p: f[10], compat_p: f[11], tcp_only: f[12] == 1, dcep: f[13] == 1 };
             let rep: usize = std::env::var("C10_REPEAT").ok().and_then(|s| s.parse().ok()).unwrap_or(1);
-            jobs_v = (0..rep).map(|_| Job { p, kind: "corpus", delay_ms: 0 }).collect();
+            let sv: Vec<u8> = std::env::var("C10_SCN").ok().map(|v| v.split_whitespace().filter_map(|x| x.parse().ok()).collect()).unwrap_or_default();
+            let scn = if sv.len() == 3 { Scn { warmup_offer_on_answerer: sv[0] == 1, ans_dc: sv[1], ans_tracks_reversed: sv[2] == 1 } } else { Scn::default() };
+            jobs_v = (0..rep).map(|_| Job { p, kind: "corpus", delay_ms: 0, scn }).collect();
             let r = run_blocking(p, &base_tmo, 2);
             eprintln!("{}\n--- offer\n{}\n--- answer\n{}\n--- {:?}", p.json(), r.offer_sdp, r.answer_sdp, oracle(&p, &r));
             eprintln!("stage={} connected={} data={:?} rtp={:?} err={:?}", r.stage, r.connected, r.data_ok, r.rtp_ok, r.error);
@@ -827,7 +923,7 @@ fn main() {
                 skipped.fetch_add(1, Ordering::SeqCst);
                 continue;
             }
-            let tmo = Timeouts { answer_delay: Duration::from_millis(jobs_a[i].delay_ms), ..base_tmo.clone() };
+            let tmo = Timeouts { answer_delay: Duration::from_millis(jobs_a[i].delay_ms), scn: jobs_a[i].scn, ..base_tmo.clone() };
             // tokio workers of the point's own runtime: 4 for the corpus and the repeated SDES calls (widens the races
             // between the state tasks and the signalling calls), 2 otherwise (with 4, the first SCTP INIT often
             // reaches the peer before its SCTP transport exists and the data exchange waits out sctp_rto_initial = 3 s
@@ -840,7 +936,7 @@ fn main() {
             if (!l.is_empty() || !rt.is_empty()) && known_class(&p, &r, &rt).is_none() && kind != "repeat" {
                 // retry once before reporting (sockets / timers are runtime), with short timeouts
                 first = Some(format!("{} [{}]", l.iter().chain(rt.iter()).cloned().collect::<Vec<_>>().join("; "), r.diag.clone().unwrap_or_default()));
-                let tmo2 = Timeouts { answer_delay: tmo.answer_delay, ..retry_tmo.clone() };
+                let tmo2 = Timeouts { answer_delay: tmo.answer_delay, scn: tmo.scn, ..retry_tmo.clone() };
                 let r2 = run_blocking(p, &tmo2, rt_workers);
                 tries = 2;
                 let (l2, rt2) = oracle(&p, &r2);
@@ -882,13 +978,15 @@ fn main() {
         if !logic.is_empty() { n_logic += 1; fail = Some(format!("negotiation logic: {}", logic.join("; "))); }
         else if !runtime.is_empty() && known.is_none() { n_runtime += 1; fail = Some(format!("runtime (after {} tries): {}", tries, runtime.join("; "))); }
         if known.is_some() { n_known += 1; }
-        if fail.is_some() || known.is_some() { failing.push(json!({"point": p.json(), "why": fail.clone().or(known.clone().map(|k| format!("listed finding {k}: {}", runtime.join("; "))))})); }
+        if fail.is_some() || known.is_some() { failing.push(json!({"point": p.json(), "scenario": format!("{:?}", job.scn), "why": fail.clone().or(known.clone().map(|k| format!("listed finding {k}: {}", runtime.join("; "))))})); }
         // the model sees every point whose offer/answer exchange completed
         let negotiated = matches!(r.stage.as_str(), "negotiated" | "connected" | "exchanged");
         let term = if negotiated && r.panic.is_none() {
             format!("mkCase {} {} {} {}", p.term(), bool_term(in_layout_class(p)), side_term(&r.off), side_term(&r.ans))
         } else { "-".into() };
-        let mut desc = json!({"point": p.json(), "answer_delay_ms": job.delay_ms, "stage": r.stage, "connected": r.connected,
+        let mut desc = json!({"point": p.json(), "answer_delay_ms": job.delay_ms,
+            "scenario": {"warmup_offer_on_answerer": job.scn.warmup_offer_on_answerer, "answerer_inband_channel": (match job.scn.ans_dc { 1 => "before offer", 2 => "after offer", _ => "none" }),
+                         "answerer_tracks_reversed": job.scn.ans_tracks_reversed, "answerer_channel_ok": r.ans_dc_ok}, "stage": r.stage, "connected": r.connected,
             "connect_ms": r.connect_ms, "tries": tries, "first_try": first, "data_ok": r.data_ok, "data_ms": r.data_ms, "rtp_ok": r.rtp_ok,
             "offerer": side_json(&r.off), "answerer": side_json(&r.ans), "error": r.error, "diag": r.diag});
         if fail.is_some() || known.is_some() {
@@ -901,7 +999,7 @@ fn main() {
             oracle_fail: fail,
             known,
             nontrivial: r.connected,
-            key: if job.kind == "repeat" { format!("{}/{}/#{}", p.key(), job.delay_ms, i) } else { format!("{}/{}", p.key(), job.delay_ms) },
+            key: if job.kind == "repeat" { format!("{}/{}/#{}", p.key(), job.delay_ms, i) } else { format!("{}/{}/{:?}", p.key(), job.delay_ms, job.scn) },
             kind: job.kind.to_string(),
         });
     }
